@@ -30,6 +30,7 @@ TOP = {
         "PV.C02_unit_left", "PV.C02_unit_right", "PV.C02_adjoint", "PV.C02_Htilde_star",
         "PV.C03_gauge",
     ],
+    "Charpoly": ["PV.C04_charpoly_similarity", "PV.C04_charpoly_truncation", "PV.C04_truncated"],
     "NonHermProof": [
         "PV.NH.inv_left", "PV.NH.inv_right", "PV.NH.C05_inverse_left", "PV.NH.C05_inverse_right", "PV.NH.C05_gauge",
         "PV.NH.X_comm", "PV.NH.main_similarity", "PV.NH.C05_similarity", "PV.NH.C05_eliminated",
